@@ -134,6 +134,55 @@ def geometry2_histories(tier):
     return out
 
 
+def geometry3_histories(tier):
+    """resize factors and coordinate modes, STRIDED_SLICE begin/end lattices, three-part concatenation and SPLIT along every axis, FULLY_CONNECTED sizes"""
+    quick = tier == "quick"
+    out = []
+
+    def add(start, steps):
+        h = dict(start=(list(start[0]), start[1]), steps=list(steps))
+        if nets.build(h, 0) is not None:
+            out.append(h)
+
+    rstarts = [((1, 1, 1, 8), "int8"), ((1, 1, 4, 8), "int8"), ((1, 2, 2, 17), "int8"), ((1, 3, 5, 8), "uint8"), ((1, 8, 8, 8), "int8"), ((1, 4, 4, 8), "int16")]
+    for st in (rstarts[1:4] if quick else rstarts):
+        for kind in ("nn", "bl"):
+            for f in (2, 4, 8):
+                for mode in "nah":
+                    add(st, ["resizeg.%s.f%d.%s" % (kind, f, mode)])
+                    if not quick:
+                        add(st, ["conv1x1", "resizeg.%s.f%d.%s" % (kind, f, mode), "conv1x1"])
+    sstarts = [((1, 6, 7, 20), "int8"), ((1, 5, 5, 40), "uint8")]
+    for st in (sstarts[:1] if quick else sstarts):
+        for bh in (0, 1):
+            for bw in (0, 2):
+                for bc in (0, 3, 16):
+                    for eh in (0, 1):
+                        for ew in (0, 1):
+                            for ec in (0, 1, 4):
+                                if quick and (bh + bw + bc + eh + ew + ec) % 2:
+                                    continue
+                                for after in ([], ["conv1x1"], ["relu"], ["maxpool2x2"]):
+                                    add(st, ["ssg.b%d-%d-%d.e%d-%d-%d" % (bh, bw, bc, eh, ew, ec)] + after)
+    cstarts = [((1, 4, 6, 8), "int8"), ((1, 5, 3, 20), "uint8"), ((1, 4, 4, 8), "int16")]
+    for st in (cstarts[:2] if quick else cstarts):
+        for axis in (1, 2, 3):
+            for extra in (1, 2, 3):
+                add(st, ["concatg.a%d.x%d" % (axis, extra)])
+                add(st, ["concatg.a%d.x%d" % (axis, extra), "conv1x1"])
+            for parts_ in (2, 3, 4):
+                for keep in (0, parts_ - 1):
+                    add(st, ["splitg.a%d.n%d.k%d" % (axis, parts_, keep), "relu"])
+                    if not quick:
+                        add(st, ["conv1x1", "splitg.a%d.n%d.k%d" % (axis, parts_, keep), "conv3x3"])
+    for st in (((1, 1, 1, 32), "int8"), ((1, 2, 2, 17), "int8"), ((1, 8, 8, 8), "uint8"), ((1, 1, 1, 512), "int8"), ((1, 4, 4, 8), "int16")):
+        for units in ((1, 16, 33) if quick else (1, 2, 15, 16, 17, 33, 64, 130)):
+            add(st, ["fcg.u%d" % units])
+            if not quick:
+                add(st, ["fcg.u%d" % units, "fcg.u%d" % units])
+    return out
+
+
 def default_plan(tier, scale=1.0):
     mids = ["tap", "branch_cpu", "branch_npu"]
     big = [((1, 32, 32, 16), "int8")]
@@ -161,7 +210,7 @@ def default_plan(tier, scale=1.0):
                 ("cpualias4xC2", cpualias, "c2"),
                 ("G1xCZ", nets.STARTS_Q[:2], nets.SIGMA_Q, 1, "cZ"),
                 ("regblockdepxCP", reg_blockdep, "cP"), ("regtilepadxC8", reg_tilepad, "c8"), ("regupcascadexC8", reg_upcascade, "c8"), ("regifacexC2", reg_iface, "c2"),
-                ("geometryxC1", geometry_histories(tier), "c1"), ("geometry2xC1", geometry2_histories(tier), "c1"),
+                ("geometryxC1", geometry_histories(tier), "c1"), ("geometry2xC1", geometry2_histories(tier), "c1"), ("geometry3xC1", geometry3_histories(tier), "c1"),
                 ("perfcascade3xCP", histories(big, perf_ops, 3), "cP")]
     return [("G1xC24", nets.STARTS_T, nets.SIGMA_T, 1, "c24"),
             ("resizefirstxCR", resize_first + [dict(start=([1, 16, 16, 8], "int8"), steps=h["steps"]) for h in resize_first], "cR"),
@@ -169,7 +218,7 @@ def default_plan(tier, scale=1.0):
             ("G2xC8", nets.STARTS_Q, nets.SIGMA_Q, 2, "c8"),
             ("chain3xC4", nets.STARTS_Q[:2], nets.SIGMA_C, 3, "c4"),
             ("perfcascade3xCP", histories(big + [((1, 48, 48, 8), "int8")], nets.SIGMA_C, 3), "cP"),
-            ("geometryxC2", geometry_histories(tier), "c2"), ("geometry2xC4", geometry2_histories(tier), "c4"), ("cpualias4xC8", cpualias, "c8"), ("G1xCZ", nets.STARTS_T, nets.SIGMA_T, 1, "cZ"),
+            ("geometryxC2", geometry_histories(tier), "c2"), ("geometry2xC4", geometry2_histories(tier), "c4"), ("geometry3xC4", geometry3_histories(tier), "c4"), ("cpualias4xC8", cpualias, "c8"), ("G1xCZ", nets.STARTS_T, nets.SIGMA_T, 1, "cZ"),
             ("fork3xC8", fork_histories(nets.STARTS_Q, nets.SIGMA_C + ["cpu_neg", "concat", "split"], mids, nets.SIGMA_C + ["cpu_neg", "concat", "reshape"]), "c8")]
 
 
